@@ -175,7 +175,7 @@ EF_PROBE = [sdslidx('ef_u16_n1', 'eliasfano.cpp', 'u_eliasfano', 'uint16_t', 1, 
 SEG_JOBS = [seg('seg_' + k.replace('_t', ''), k) for k in ('int8_t', 'uint8_t', 'uint64_t', 'int64_t', 'int32_t')] + [seg('seg_i8_dbl', 'int8_t', 64)] + [seg('seg_' + k.replace('_t', ''), k, tiers=T, timeout=3000) for k in ('int16_t', 'uint16_t')]
 JOBS['C01'] += SEG_JOBS
 JOBS['C02'] = JOBS['C01'] + [j_ for j_ in JOBS['C03'] if j_['name'] == 'mkseg_n3_e1_chunk02']
-JOBS['C07'] = [e2e('e2e_u8_n3_e1_r1', 'uint8_t', 3, 1, 1), e2e('e2e_i8_n2_e1_r1', 'int8_t', 2, 1, 1), e2e('e2e_u8_n4_e1_r1', 'uint8_t', 4, 1, 1, tiers=T, timeout=3000)]
+JOBS['C07'] = [e2e('e2e_u8_n3_e1_r1', 'uint8_t', 3, 1, 1), e2e('e2e_i8_n2_e1_r1', 'int8_t', 2, 1, 1), e2e('e2e_u8_n3_e1_r57_binsearch', 'uint8_t', 3, 1, 57), e2e('e2e_u8_n4_e1_r1', 'uint8_t', 4, 1, 1, tiers=T, timeout=3000)]
 JOBS['C16'] = [e2e('frame_u8_n2_e1_r1', 'uint8_t', 2, 1, 1, extra=dict(WITH_FRAME=1)), e2e('frame_u8_n3_e1_r0', 'uint8_t', 3, 1, 0, extra=dict(WITH_FRAME=1))]
 JOBS['C16'] += [dynframe('dynframe_q_o2', 0, 2), dynframe('dynframe_it_o2', 1, 2, tiers=T, timeout=3000)]
 JOBS['C20'] = [e2e('reject_u8_n%d' % n, 'uint8_t', n, 1, 1, extra=dict(ALLOW_SENTINEL=1)) for n in (1, 2)] + \
